@@ -1666,7 +1666,9 @@ fn c14_enum(chk: &StepCheck, cx: &mut Ctx) {
     if modes_sweep(chk, cx, 0.25) {
         cx.stats.exhaustive_parts.insert("every mode number 0..=130 and 40 numbers other terminals define, private and ANSI, set on a dense 5x3 screen: the check's candidates judged from three cursor positions".into());
     }
-    let depth: u32 = if cx.quick() { 4200 } else { 16500 };
+    // (every judged step snapshots the whole stack, so the cost is quadratic in the depth: the
+    // fully judged nesting stays moderate, and a much deeper stack is built unjudged below)
+    let depth: u32 = if cx.quick() { 4200 } else { 6000 };
     for (i, via_parser) in [false, true].iter().enumerate() {
         if !cx.mine(i as u64) || !cx.begin_group(&format!("deep nesting {} parser={}", depth, via_parser)) {
             continue;
@@ -1690,6 +1692,29 @@ fn c14_enum(chk: &StepCheck, cx: &mut Ctx) {
             }
             fan_out(cx, chk.id, &chk.owns, c, l, &[], &base, &pre, &[Cand { ops }]);
             cx.stats.exhaustive_parts.insert(format!("save^{} . restore^{} with pairwise distinct levels, API and parser", depth, depth + 2));
+        }
+    }
+    // a stack deeper than any 16-bit counter: 70 000 levels pushed without judging (setup), then
+    // the next pushes and pops judged in full
+    if cx.mine(2) && cx.begin_group("very deep stack") {
+        let (c, l) = (7u32, 5u32);
+        let mut setup: Vec<Op> = Vec::new();
+        for k in 0..70_000u32 {
+            setup.push(Op::Api(Call::CursorPosition(Some(1 + k % l), Some(1 + (k / l) % c))));
+            setup.push(Op::Api(Call::SaveCursor));
+        }
+        if let Some((base, pre)) = reach(cx, c, l, &setup) {
+            let ops = vec![
+                Op::Api(Call::Sgr(vec![1, 31])),
+                Op::Api(Call::SaveCursor),
+                Op::Api(Call::CursorPosition(Some(1), Some(1))),
+                Op::Api(Call::RestoreCursor),
+                Op::Api(Call::RestoreCursor),
+                Op::Api(Call::RestoreCursor),
+                Op::Api(Call::RestoreCursor),
+            ];
+            fan_out(cx, chk.id, &chk.owns, c, l, &setup, &base, &pre, &[Cand { ops }]);
+            cx.stats.exhaustive_parts.insert("a saved stack of 70 000 levels (built unjudged), then one more push and four pops judged in full".into());
         }
     }
 }
